@@ -26,6 +26,7 @@ RULE = ("Three scenario families on a real Zeroconf in virtual time, all queries
 ASSUMPTIONS = ["the random 20..120 ms start delay is read from the trace (first query of each browser) and the model is evaluated at the observed instants"]
 
 T = "_http._tcp.local."
+T_OTHER = "_ipp._tcp.local."
 
 
 def floors(tier):
@@ -218,7 +219,11 @@ def run_supp(res: Result, seed: int) -> None:
     ext_qu = rng.random() < 0.25
     ext_known = rng.choice(["none", "subset", "equal", "superset"])
     authoritative = rng.random() < 0.7
-    desc = {"family": "supp", "pair": pair, "gap": gap, "n_cached": n_cached, "forced": forced, "ext_qu": ext_qu, "ext_known": ext_known, "authoritative": authoritative}
+    # the external asker may put a second question (another type this host answers for) with its own known answers - all of
+    # them records this host holds too - into the same packet, as a browser of several types does
+    ext_multi = authoritative and rng.random() < 0.35
+    desc = {"family": "supp", "pair": pair, "gap": gap, "n_cached": n_cached, "forced": forced, "ext_qu": ext_qu, "ext_known": ext_known, "authoritative": authoritative,
+            "ext_multi": ext_multi}
 
     def viol(monitor: str, kind: str, detail: str, **sig: Any) -> None:
         res.violation(monitor, kind, detail, dict(sig, family="supp", pair=pair), {"seed": seed, "family": "supp", "scenario": desc})
@@ -239,6 +244,10 @@ def run_supp(res: Result, seed: int) -> None:
                 s = Svc(T, "mine." + T, "hostm.local.", 80, b"", [b"\x0a\x00\x00\x01"], [], 120, 4500)
                 t = await zc.async_register_service(R.make_info(s), cooperating_responders=True)
                 await t
+                if ext_multi:
+                    s2 = Svc(T_OTHER, "mine2." + T_OTHER, "hostm.local.", 81, b"", [b"\x0a\x00\x00\x01"], [], 120, 4500)
+                    t = await zc.async_register_service(R.make_info(s2), cooperating_responders=True)
+                    await t
                 await sim.sleep_ms(3000)
                 # the host's own announcements looped back: its own PTR is now in its cache as well
                 rec = zc.cache.get(probe_ptr(("PTR", T, (s.name.lower(),))))
@@ -276,7 +285,11 @@ def run_supp(res: Result, seed: int) -> None:
                         kn = idents
                     elif ext_known == "superset":
                         kn = idents + [("PTR", T, ("stranger." + T,))]
-                    data = R.build_query([(T, 12, ext_qu)], [(i, 4000) for i in kn], id_=0)
+                    if ext_multi:
+                        other_known = [(("PTR", T_OTHER, ("mine2." + T_OTHER,)), 4000)]
+                        data = R.build_query([(T, 12, ext_qu), (T_OTHER, 12, ext_qu)], [(i, 4000) for i in kn] + other_known, id_=0)
+                    else:
+                        data = R.build_query([(T, 12, ext_qu)], [(i, 4000) for i in kn], id_=0)
                     at = B + max(1.0, base_off)
                     sim.net.inject(host, data, ("10.0.0.44", 5353), delay_ms=at - sim.now_ms())
                     out["ext"].append((at, set(kn)))
